@@ -352,6 +352,82 @@ def render_ds(ds) -> str:
     return f"D0({ds.num_obs};[{render_fields(ds._fields, [])}])"
 
 
+def scribble(m, depth=0) -> bool:
+    """modify every mutable container of a meta tree in place (what a caller working on a dataset it has read may do);
+    returns whether anything could be modified"""
+    did = False
+    if isinstance(m, list):
+        for x in m:
+            did |= scribble(x, depth + 1)
+        m.append("scribbled")
+        did = True
+    elif isinstance(m, dict):
+        for x in list(m.values()):
+            did |= scribble(x, depth + 1)
+        m["scribbled"] = 1
+        did = True
+    elif isinstance(m, set):
+        m.add("scribbled")
+        did = True
+    elif isinstance(m, tuple):
+        for x in m:
+            did |= scribble(x, depth + 1)
+    return did
+
+
+def reread_history(ctx: Ctx, ds, e, path, level, meta, case):
+    """the file is the truth: what the caller does to a dataset it has read (or to the one it wrote) must not show in
+    a later read of the unchanged file (write -> read -> modify the result in place -> read)"""
+    from midgard.data import dataset
+
+    idx_w = restricted_index(ds, level)
+    want = (ds.num_obs, oracle_fields(ds._fields, idx_w, level))
+    did = False
+    for k in list(e.meta.keys()):
+        try:
+            did |= scribble(e.meta[k])
+        except Exception:
+            pass
+    try:
+        e.meta.add_event(e, "verif", "scribbled into the events of the dataset read")
+        did = True
+    except Exception:
+        pass
+    # numeric rows of the result are overwritten where the arrays allow it
+    for f in list(e._fields.values()):
+        try:
+            a = np.asarray(f.data)
+            if a.dtype.kind == "f" and a.size and a.flags.writeable:
+                a[...] = -12345.0
+                did = True
+        except Exception:
+            pass
+    if not did:
+        return
+    ctx.count("history:read-modify-read")
+    with contextlib.redirect_stdout(io.StringIO()):
+        try:
+            e2 = dataset.Dataset.read(path)
+        except Exception as ex:
+            ctx.violate("reread:raises:" + _site(ex), f"second Dataset.read of the unchanged file raised {type(ex).__name__}: {ex}", case)
+            return
+    got = (e2.num_obs, oracle_fields(e2._fields, field_index(e2._fields), 0))
+    d = first_diff(got, want)
+    if d:
+        ctx.violate("reread:" + d[0], "a second read of the unchanged file, after the first result was modified in place, differs "
+                    "from what was written: " + d[1], {**case, "history": "write,read,modify-result,read"})
+        return
+    for k, v in meta.items():
+        if k not in e2.meta or not _same_meta_file(v, e2.meta[k]):
+            ctx.violate("reread:meta", f"meta {k!r}: wrote {v!r}; after modifying the first result in place a second read of the "
+                        f"unchanged file gives {e2.meta.get(k)!r}", {**case, "history": "write,read,modify-result,read"})
+            return
+    ev = e2.meta.get("__events__") if hasattr(e2.meta, "get") else None
+    if ev and "scribbled" in repr(ev):
+        ctx.violate("reread:events", "events added to the first result show in a second read of the unchanged file",
+                    {**case, "history": "write,read,modify-result,read"})
+
+
 def one_dataset(ctx: Ctx, setup_ops, level: int, meta: dict, tmp: str, tag: str, mult: dict = None):
     from midgard.data import dataset
 
@@ -440,6 +516,7 @@ def one_dataset(ctx: Ctx, setup_ops, level: int, meta: dict, tmp: str, tag: str,
             ctx.violate("meta:" + ("string" if isinstance(v, str) else type(v).__name__),
                         f"meta {k!r}: wrote {v!r}, read {e.meta[k]!r}", case)
             return
+    reread_history(ctx, ds, e, path, level, meta, case)
 
 
 def _same_meta_file(a, b) -> bool:
@@ -513,6 +590,18 @@ def codec_case(ctx: Ctx, m):
     ctx.traces += 1
     if model != impl:
         ctx.disagree("attribute codec", case, model, impl)
+    if ok and isinstance(enc, str) or ok and isinstance(enc, bytes):
+        # decoding is a function of the text: what the caller does to one result must not show in the next
+        try:
+            if scribble(out):
+                again = _h5utils.decode_h5attr(enc)
+                ctx.count("codec:decode-modify-decode")
+                if not _same(m, again):
+                    ctx.violate("codec:history", f"decode_h5attr({enc!r}) after the previous result was modified in place gives {again!r}",
+                                {**case, "history": "decode,modify-result,decode"})
+                    return
+        except Exception:
+            pass
     if not ok:
         kind = "string" if isinstance(m, str) else type(m).__name__
         ctx.violate("codec:" + kind, f"decode_h5attr(encode_h5attr({m!r})) = {out!r}", case)
